@@ -4,6 +4,8 @@ import HcipyVerif.Model.FieldProg
 set_option linter.unusedSimpArgs false
 set_option linter.unusedVariables false
 
+deriving instance DecidableEq for Except
+
 namespace HcipyVerif.FieldProg
 
 /-- the value part of an evaluation result -/
@@ -259,6 +261,10 @@ theorem step_rel (gs : Grids) {so : OState} {sn : NState} (h : Rel so sn) (st : 
   cases st with
   | assign x e =>
     simp only [stepO, stepN]
+    cases hiv : e.isVar with
+    | true => simp [StepRel]
+    | false =>
+    simp only [Bool.false_eq_true, if_false]
     rcases dataOf_eq_cases (evalON h e hs) with ⟨err, h1, h2⟩ | ⟨a, t, u, h1, h2⟩
     · simp [h1, h2, StepRel, Except.map]
     · simp only [h1, h2, StepRel, Except.map]
@@ -403,5 +409,123 @@ theorem lookup_bind {α} (l : List (Nat × α)) (x h : Nat) (r : α) :
   · subst hx; simp [List.lookup_cons]
   · have : (h == x) = false := by simpa using hx
     simp [List.lookup_cons, this, hx, lookup_filter_ne l x h hx]
+
+/-! ## The decidable side condition implies the semantic one -/
+
+theorem sameTagB_sound {r s : Except Err Val} (h : sameTagB r s = true) : tagOf r = tagOf s := by
+  cases r with
+  | error e =>
+    cases s with
+    | error f => simp only [sameTagB, beq_iff_eq] at h; subst h; rfl
+    | ok w => simp [sameTagB] at h
+  | ok v =>
+    cases s with
+    | error f => simp [sameTagB] at h
+    | ok w => simp only [sameTagB, beq_iff_eq] at h; simp [tagOf, Except.map, h]
+
+theorem shapedAgreeB_sound (P Q : Policy) (gs : Grids) (lo ln : Nat → Except Err Val) (e : Expr)
+    (h : shapedAgreeB P Q gs lo ln e = true) : ShapedAgree P Q gs lo ln e := by
+  induction e with
+  | var x => trivial
+  | lit a => trivial
+  | scal c k => trivial
+  | field a g => trivial
+  | bin op l r ihl ihr => simp only [shapedAgreeB, Bool.and_eq_true] at h; exact ⟨ihl h.1, ihr h.2⟩
+  | mask e m ihe ihm => simp only [shapedAgreeB, Bool.and_eq_true] at h; exact ⟨ihe h.1, ihm h.2⟩
+  | shaped e ih => simp only [shapedAgreeB, Bool.and_eq_true] at h; exact ⟨ih h.1, sameTagB_sound h.2⟩
+  | un u e ih => exact ih h
+  | red r ax e ih => exact ih h
+  | idx i e ih => exact ih h
+  | reshape s e ih => exact ih h
+  | ravel e ih => exact ih h
+  | copy e ih => exact ih h
+  | pickle e ih => exact ih h
+  | app1 f e ih => exact ih h
+  | app2 f a b iha ihb => simp only [shapedAgreeB, Bool.and_eq_true] at h; exact ⟨iha h.1, ihb h.2⟩
+  | app3 f a b c iha ihb ihc =>
+    simp only [shapedAgreeB, Bool.and_eq_true] at h; exact ⟨iha h.1.1, ihb h.1.2, ihc h.2⟩
+
+theorem stmtAgreeB_sound (gs : Grids) (so : OState) (sn : NState) (st : Stmt)
+    (h : stmtAgreeB gs so sn st = true) : StmtAgree gs so sn st := by
+  cases st with
+  | assign x e => exact shapedAgreeB_sound _ _ _ _ _ e h
+  | alias y x => trivial
+  | update x u args =>
+    intro e he
+    simp only [stmtAgreeB, List.all_eq_true] at h
+    exact shapedAgreeB_sound _ _ _ _ _ e (h e he)
+
+theorem progAgreeB_sound (gs : Grids) (p : List Stmt) :
+    ∀ so sn, progAgreeB gs so sn p = true → ProgAgree gs so sn p := by
+  induction p with
+  | nil => intro so sn _; trivial
+  | cons st rest ih =>
+    intro so sn h
+    simp only [progAgreeB, Bool.and_eq_true] at h
+    refine ⟨stmtAgreeB_sound gs so sn st h.1, fun so' sn' ho hn => ih so' sn' ?_⟩
+    have h2 := h.2
+    rw [ho, hn] at h2
+    exact h2
+
+theorem shapedAgreeB_of_noShaped (P Q : Policy) (gs : Grids) (lo ln : Nat → Except Err Val) (e : Expr)
+    (h : NoShaped e) : shapedAgreeB P Q gs lo ln e = true := by
+  induction e with
+  | shaped e ih => exact absurd h (by simp [NoShaped])
+  | bin op l r ihl ihr => simp [shapedAgreeB, ihl h.1, ihr h.2]
+  | mask e m ihe ihm => simp [shapedAgreeB, ihe h.1, ihm h.2]
+  | app2 f a b iha ihb => simp [shapedAgreeB, iha h.1, ihb h.2]
+  | app3 f a b c iha ihb ihc => simp [shapedAgreeB, iha h.1, ihb h.2.1, ihc h.2.2]
+  | var x => rfl
+  | lit a => rfl
+  | scal c k => rfl
+  | field a g => rfl
+  | un u e ih => simpa [shapedAgreeB] using ih h
+  | red r ax e ih => simpa [shapedAgreeB] using ih h
+  | idx i e ih => simpa [shapedAgreeB] using ih h
+  | reshape s e ih => simpa [shapedAgreeB] using ih h
+  | ravel e ih => simpa [shapedAgreeB] using ih h
+  | copy e ih => simpa [shapedAgreeB] using ih h
+  | pickle e ih => simpa [shapedAgreeB] using ih h
+  | app1 f e ih => simpa [shapedAgreeB] using ih h
+
+theorem progAgreeB_of_noShaped (gs : Grids) (p : List Stmt) (h : ∀ st ∈ p, StmtNoShaped st) :
+    ∀ so sn, progAgreeB gs so sn p = true := by
+  induction p with
+  | nil => intro so sn; rfl
+  | cons st rest ih =>
+    intro so sn
+    have hst : stmtAgreeB gs so sn st = true := by
+      have h0 := h st (by simp)
+      cases st with
+      | assign x e => exact shapedAgreeB_of_noShaped _ _ _ _ _ e h0
+      | alias y x => rfl
+      | update x u args =>
+        simp only [stmtAgreeB, List.all_eq_true]
+        exact fun e he => shapedAgreeB_of_noShaped _ _ _ _ _ e (h0 e he)
+    simp only [progAgreeB, hst, Bool.true_and]
+    cases stepO gs so st with
+    | error e => rfl
+    | ok so' =>
+      cases stepN gs sn st with
+      | error e => rfl
+      | ok sn' => exact ih (fun s hs => h s (by simp [hs])) so' sn'
+
+theorem progDisagreeAt_none_iff (gs : Grids) (p : List Stmt) :
+    ∀ so sn i, progDisagreeAt gs so sn p i = none ↔ progAgreeB gs so sn p = true := by
+  induction p with
+  | nil => intro so sn i; simp [progDisagreeAt, progAgreeB]
+  | cons st rest ih =>
+    intro so sn i
+    simp only [progDisagreeAt, progAgreeB]
+    cases hs : stmtAgreeB gs so sn st with
+    | false => simp
+    | true =>
+      simp only [if_true, Bool.true_and]
+      cases stepO gs so st with
+      | error e => simp
+      | ok so' =>
+        cases stepN gs sn st with
+        | error e => simp
+        | ok sn' => exact ih so' sn' (i + 1)
 
 end HcipyVerif.FieldProg
